@@ -46,8 +46,10 @@ type RevocationStore struct {
 
 	// buckets is an array of elements from which we may derive all
 	// previous elements, each bucket corresponds to the element with the
-	// particular number of trailing zeros.
-	buckets [maxHeight]element
+	// particular number of trailing zeros. An index has between 0 and
+	// maxHeight trailing zeros (the last index of the chain, zero, has
+	// maxHeight of them), so maxHeight+1 buckets are needed, as in BOLT-3.
+	buckets [maxHeight + 1]element
 
 	// index is an available index which will be assigned to the new
 	// element.
